@@ -239,6 +239,9 @@ pub struct TreeOpts {
     /// prefix pool includes non-ASCII prefixes, local names include id / lang / space / xmlnsx
     /// (names that look like the special xml:* attributes and declarations without being them)
     pub wide_prefixes: bool,
+    /// explicit xmlns:xml="http://www.w3.org/XML/1998/namespace" declarations (legal; a parser must keep
+    /// them, xot's serializer never writes the xml prefix — so only the parse direction uses this)
+    pub xml_prefix_decls: bool,
 }
 
 impl TreeOpts {
@@ -259,6 +262,7 @@ impl TreeOpts {
             xml_ids: false,
             redundant_decls: false,
             wide_prefixes: false,
+            xml_prefix_decls: false,
         }
     }
     pub fn tiny(max_nodes: usize) -> Self {
@@ -278,6 +282,7 @@ impl TreeOpts {
             xml_ids: false,
             redundant_decls: false,
             wide_prefixes: false,
+            xml_prefix_decls: false,
         }
     }
 }
@@ -427,6 +432,11 @@ fn gen_decls(src: &mut Src, g: &mut G) -> Vec<(String, String)> {
             continue;
         }
         out.push((p.to_string(), u.to_string()));
+    }
+    // (wide pool) the one legal declaration of the xml prefix, written out explicitly
+    if o.xml_prefix_decls && src.ratio(1, 10) {
+        let at = src.choice(out.len() + 1);
+        out.insert(at, ("xml".to_string(), XML_NS.to_string()));
     }
     out
 }
